@@ -321,6 +321,12 @@ class SqlCon:
             self.db.log.append(("commit", {k: len(v["rows"]) for k, v in self.work.items()}))
             self.in_transaction, self.work = False, None
             return Cursor([])
+        if up == "ROLLBACK":
+            if not self.in_transaction:
+                raise PyRaise(sqlite3.OperationalError("cannot rollback - no transaction is active"))
+            self.db.log.append(("rollback", {k: len(v["rows"]) for k, v in self.work.items()}))
+            self.in_transaction, self.work = False, None  # everything since BEGIN is discarded
+            return Cursor([])
         m = re.fullmatch(r"CREATE TABLE IF NOT EXISTS " + IDENT + r" \((.*)\)", s, re.S)
         if m:
             name = m.group(1).replace('""', '"')
